@@ -368,3 +368,41 @@ def int_data(ctx, which, add_one):
     ctx.eq('%s on integer-typed data == tensor of basis-function products' % which, psi.full(), ref.full(), tol=1e-12)
     for k in range(psi.order - 1):
         ctx.eq('%s on integer-typed data: single_core=%d == core %d of the full train' % (which, k, k), fn(xi, single_core=k), ref.cores[k], tol=1e-12)
+
+
+# ------------------------------------------------------------ HOCUR with unequal mode sizes (concrete only)
+@scenario('C15', 'hocur_sizes', lambda tier: [{'sizes': sz, 'm': m} for (sz, m) in (([4, 2, 3], 12), ([3, 3, 3], 10), ([2, 4, 3], 12), ([4, 3, 4, 3], 9))])
+def hocur_sizes(ctx, sizes, m):
+    """NOT a solver verdict (the pivot searches are data-dependent control through LAPACK): the unmodified hocur, asked for ranks >= the true ranks,
+    reproduces the dense tensor of basis-function products for basis lists of unequal size (larger mode before a smaller one and the reverse)"""
+    tdt = ctx.R.transform
+    if ctx.mode == 'tv':
+        raise SkipTV()
+    if ctx.sym:
+        ctx.held('HOCUR end to end with its own pivot searches is exercised by the concrete validation run of this scenario (sampling, stated in the evidence)')
+        return
+    rng = np.random.RandomState(3 + sum(sizes) + m)
+    d = len(sizes)
+    x = rng.rand(d, m) * 2 - 1
+    fams = [lambda t: 1.0 + 0 * t, lambda t: t, lambda t: np.sin(2 * t), lambda t: t * t, lambda t: np.cos(3 * t)]
+
+    class F(object):
+        def __init__(self, idx, k):
+            self.idx, self.k = idx, k
+
+        def __call__(self, t):
+            return fams[self.k](t[self.idx])
+    phi = [[F(i, k) for k in range(sizes[i])] for i in range(d)]
+    T = np.zeros(tuple(sizes) + (m,))
+    for idx in itertools.product(*[range(k) for k in sizes]):
+        for j in range(m):
+            v = 1.0
+            for i, k in enumerate(idx):
+                v *= float(phi[i][k](x[:, j]))
+            T[idx + (j,)] = v
+    np.random.seed(11)
+    for ranks, reps in ((m, 1), (m, 3)):
+        psi = tdt.hocur(x, phi, ranks, repeats=reps, progress=False)
+        meta_ok(ctx, 'hocur', psi)
+        err = float(np.linalg.norm(np.asarray(psi.full()).reshape(T.shape) - T) / np.linalg.norm(T))
+        ctx.check('hocur(ranks >= true ranks, repeats=%d) reproduces the tensor of basis-function products' % reps, err <= 1e-8, detail='relative error %.3e, ranks %s' % (err, psi.ranks))
